@@ -183,5 +183,9 @@ func (c *scriptPacket) WriteTo(p []byte, a net.Addr) (int, error) {
 }
 
 // EndpointPacket / ScriptPacket are the datagram counterparts (units are datagrams).
-func (w *Watch) EndpointPacket(c net.PacketConn) net.PacketConn { return &endpointPacket{PacketConn: c, w: w} }
-func (w *Watch) ScriptPacket(c net.PacketConn) net.PacketConn   { return &scriptPacket{PacketConn: c, w: w} }
+func (w *Watch) EndpointPacket(c net.PacketConn) net.PacketConn {
+	return &endpointPacket{PacketConn: c, w: w}
+}
+func (w *Watch) ScriptPacket(c net.PacketConn) net.PacketConn {
+	return &scriptPacket{PacketConn: c, w: w}
+}
